@@ -15,7 +15,7 @@ import (
 
 func TestMain(m *testing.M) { stats.Main(m, "C07") }
 
-const ruleEnum = "all sequences of length 1..depth over (a) {RegisterNode n with policy default/allow/deny/INVALID, RemoveNode n, RegisterPipeline p=[n s], RemovePipeline p} and (b) {RegisterNode m, RegisterNode s (fresh marker instances), RegisterPipeline p=[m s] with the 4 policies, RemovePipeline p, RemovePipelineAndNodes p} (exhaustive); oracle = policy automaton (Deny sticky until removal, Allow/default re-registrable with the new policy applying, invalid rejected without change) + which instance versions a probe Send reaches (old pipelines keep the old node instance); non-trivial = a registration attempt hit a Deny; distinct by construction"
+const ruleEnum = "all sequences of length 1..depth over (a) {RegisterNode n (fresh object or the same object again) with policy default/allow/deny/INVALID, RemoveNode n, RegisterPipeline p=[n s], RemovePipeline p} and (b) {RegisterNode m, RegisterNode s (fresh marker instances), RegisterPipeline p=[m s] with the 4 policies, RemovePipeline p, RemovePipelineAndNodes p} (exhaustive); oracle = policy automaton (Deny sticky until removal, Allow/default re-registrable with the new policy applying, invalid rejected without change) + which instance versions a probe Send reaches (old pipelines keep the old node instance); non-trivial = a registration attempt hit a Deny; distinct by construction"
 const ruleRandom = "rapid histories mixing node and pipeline policies over 3 node ids, 2 pipeline ids, 2 types; same oracle after every step"
 
 const (
@@ -72,6 +72,7 @@ func TestC07Exhaustive(t *testing.T) {
 	var nodeAlpha, pipeAlpha []model.Op
 	for pol := 0; pol < 4; pol++ {
 		nodeAlpha = append(nodeAlpha, model.Op{K: "regnode", N: "n", NT: fmtT, Pol: pol})
+		nodeAlpha = append(nodeAlpha, model.Op{K: "regnode", N: "n", NT: fmtT, Pol: pol, Reuse: true}) // the same node object again
 		pipeAlpha = append(pipeAlpha, model.Op{K: "regpipe", ET: "A", P: "p", IDs: []string{"m", "s"}, Pol: pol})
 	}
 	nodeAlpha = append(nodeAlpha, model.Op{K: "rmnode", N: "n"}, model.Op{K: "regpipe", ET: "A", P: "p", IDs: []string{"n", "s"}}, model.Op{K: "rmpipe", ET: "A", P: "p"})
@@ -112,7 +113,8 @@ func TestC07Random(t *testing.T) {
 		switch rapid.SampledFrom([]int{0, 0, 0, 1, 1, 1, 2, 3, 4}).Draw(t, "k") {
 		case 0:
 			id := rapid.SampledFrom(ids).Draw(t, "n")
-			return model.Op{K: "regnode", N: id, NT: typeOf[id], Pol: rapid.IntRange(0, 3).Draw(t, "pol")}
+			return model.Op{K: "regnode", N: id, NT: typeOf[id], Pol: rapid.IntRange(0, 3).Draw(t, "pol"), Reuse: rapid.IntRange(0, 3).Draw(t, "reuse") == 0,
+				Shape: rapid.SampledFrom([]int{0, 0, 1, 2, 3}).Draw(t, "shape")}
 		case 1:
 			return model.Op{K: "regpipe", ET: rapid.SampledFrom(ets).Draw(t, "et"), P: rapid.SampledFrom([]string{"p", "q"}).Draw(t, "p"),
 				IDs: []string{rapid.SampledFrom([]string{"n", "m"}).Draw(t, "f"), "s"}, Pol: rapid.IntRange(0, 3).Draw(t, "ppol")}
